@@ -88,7 +88,26 @@ class State:
 
     def assume(self, cond):
         self.pc.append(cond)
-        self.model = None
+        if self.model is not None:
+            # keep the witness model when it already satisfies the new conjunct (fresh symbols are completed arbitrarily,
+            # so this only succeeds when the conjunct does not mention unconstrained new symbols in a falsifiable way)
+            try:
+                if not z3.is_true(self.model.eval(cond, model_completion=False)):
+                    self.model = None
+            except z3.Z3Exception:
+                self.model = None
+        self._ids = None
+
+    def pc_ids(self):
+        ids = getattr(self, '_ids', None)
+        if ids is None or len(ids[1]) != len(self.pc):
+            s = {}
+            for p in self.pc:
+                sp = z3.simplify(p)
+                s[sp.get_id()] = sp        # keep the AST alive: z3 reuses ids of freed ASTs
+            ids = (s, list(self.pc))
+            self._ids = ids
+        return ids[0]
 
     def event(self, *ev):
         self.events.append(ev)
@@ -774,6 +793,10 @@ class Executor:
             cands = [n for n in self.mir.const_index if n.endswith(tl)]
         if len(cands) == 1:
             return self.eval_named_const(st, cands[0])
+        if t.startswith('Slice {') or t.endswith(': &CStr') or t.endswith('&std::ffi::CStr') or t.endswith('&core::ffi::CStr'):
+            return Opaque('&CStr', tag=t[:40])           # C string literal: contents never inspected by the kernels
+        if self.auto_havoc:
+            return Opaque('const', tag=t[:60])
         raise Abort('unmodelled', 'constant %s (%d candidates)' % (t, len(cands)))
 
     def eval_named_const(self, st, name):
